@@ -359,3 +359,127 @@ Section PcqTheorems.
       destruct todo as [|v r]; [reflexivity|]. destruct (q_empty s) eqn:Ee; [lia|discriminate].
   Qed.
 End PcqTheorems.
+
+(* ---- termination: every step of any thread decreases the sum of the threads' remaining work ---- *)
+Definition tw (t : qthread) : nat :=
+  match t with
+  | QProd pc todo => 5 * length todo + match pc with QPWait => 4 | QPLock => 3 | QPWrite => 2 | QPUnlock => 1 | QPPost => 0 end
+  | QCons pc want _ => 5 * want + match pc with QCWait => 4 | QCLock => 3 | QCRead => 2 | QCUnlock => 1 | QCPost => 0 end
+  end.
+
+Lemma pcq_step_decreases n s i s' : pcq_step n s i = Some s' -> wsum tw (q_threads s') < wsum tw (q_threads s).
+Proof.
+  intros H. unfold pcq_step in H.
+  destruct (nth_error (q_threads s) i) as [t|] eqn:Hnth; [|discriminate].
+  destruct t as [pc [|v rest]|pc [|w] got]; try discriminate.
+  - destruct pc;
+      repeat match type of H with
+             | context [match q_empty s with _ => _ end] => destruct (q_empty s)
+             | context [if ?c then _ else _] => destruct c
+             end; try discriminate; inversion H; subst s'; clear H; simpl; unfold q_set_thread;
+      match goal with |- wsum tw (list_upd _ _ ?t') < _ => pose proof (wsum_upd tw _ _ _ t' Hnth) as Hs end; simpl in Hs; lia.
+  - destruct pc;
+      repeat match type of H with
+             | context [match q_used s with _ => _ end] => destruct (q_used s)
+             | context [if ?c then _ else _] => destruct c
+             end; try discriminate; inversion H; subst s'; clear H; simpl; unfold q_set_thread;
+      match goal with |- wsum tw (list_upd _ _ ?t') < _ => pose proof (wsum_upd tw _ _ _ t' Hnth) as Hs end; simpl in Hs; lia.
+Qed.
+
+Lemma pcq_runs_bounded_proof n ls : forall s s', run (pcq_step n) s ls = Some s' -> length ls + wsum tw (q_threads s') <= wsum tw (q_threads s).
+Proof.
+  induction ls as [|l r IH]; intros s s0 H; simpl in H.
+  - inversion H; subst; simpl; lia.
+  - destruct (pcq_step n s l) as [s1|] eqn:E; [|discriminate].
+    pose proof (pcq_step_decreases _ _ _ _ E). pose proof (IH _ _ H). simpl. lia.
+Qed.
+
+(* ---- in production order per producer ---- *)
+(* values stored by thread i, in store order *)
+Definition stored_by (i : nat) (s : qstate) : list Z :=
+  map snd (filter (fun e => Nat.eqb (fst e) i) (q_wtlog s)).
+
+(* what thread i still has to store *)
+Definition to_store (t : qthread) : list Z :=
+  match t with
+  | QProd QPUnlock todo | QProd QPPost todo => tl todo
+  | QProd _ todo => todo
+  | QCons _ _ _ => []
+  end.
+
+Section PcqOrder.
+  Variable n : nat.
+  Variable threads0 : list qthread.
+
+  Record OInv (s : qstate) : Prop := {
+    oi_tags : map snd (q_wtlog s) = q_wlog s;
+    oi_len : length (q_threads s) = length threads0;
+    oi_prod : forall i t0 t, nth_error threads0 i = Some t0 -> nth_error (q_threads s) i = Some t ->
+              stored_by i s ++ to_store t = to_store t0;
+  }.
+
+  Lemma oinv_init : OInv (pcq_init n 0 threads0).
+  Proof.
+    constructor; simpl; auto.
+    intros i t0 t H0 H. rewrite H0 in H. inversion H; subst. reflexivity.
+  Qed.
+
+  Lemma stored_by_app i (l : list (nat * Z)) (e : nat * Z) : 
+    map snd (filter (fun x => Nat.eqb (fst x) i) (l ++ [e])) =
+    map snd (filter (fun x => Nat.eqb (fst x) i) l) ++ (if Nat.eqb (fst e) i then [snd e] else []).
+  Proof. rewrite filter_app, map_app. simpl. destruct (Nat.eqb (fst e) i); reflexivity. Qed.
+
+  Lemma list_upd_length {A} (l : list A) i x : length (list_upd l i x) = length l.
+  Proof. revert i. induction l as [|a l IH]; intros [|i]; simpl; auto. Qed.
+
+  Lemma oinv_step s i s' : OInv s -> pcq_step n s i = Some s' -> OInv s'.
+  Proof.
+    intros [Ot Ol Op] H. unfold pcq_step in H.
+    destruct (nth_error (q_threads s) i) as [t|] eqn:Hnth; [|discriminate].
+    (* generic: a step of thread i that stores nothing and keeps to_store *)
+    assert (Hkeep : forall t', to_store t' = to_store t -> forall s1,
+               q_threads s1 = list_upd (q_threads s) i t' -> q_wtlog s1 = q_wtlog s -> q_wlog s1 = q_wlog s -> OInv s1).
+    { intros t' Hts s1 Hth Hw Hl. constructor.
+      - rewrite Hw, Hl. exact Ot.
+      - rewrite Hth, list_upd_length. exact Ol.
+      - intros j t0 u H0 Hu. rewrite Hth in Hu. unfold stored_by. rewrite Hw.
+        destruct (Nat.eq_dec i j) as [->|Hne].
+        + rewrite (nth_error_upd_same _ _ _ _ Hnth) in Hu. inversion Hu; subst u. rewrite Hts. apply (Op j t0 t H0 Hnth).
+        + rewrite nth_error_upd_other in Hu by exact Hne. apply (Op j t0 u H0 Hu). }
+    destruct t as [pc [|v rest]|pc [|w] got]; try discriminate.
+    - destruct pc.
+      + destruct (q_empty s); [discriminate|]. inversion H; subst s'. apply (Hkeep (QProd QPLock (v :: rest))); reflexivity.
+      + destruct (q_pmx s); [discriminate|]. inversion H; subst s'. apply (Hkeep (QProd QPWrite (v :: rest))); reflexivity.
+      + (* the store *)
+        inversion H; subst s'; clear H. constructor; simpl.
+        * rewrite map_app, Ot. reflexivity.
+        * unfold q_set_thread. rewrite list_upd_length. exact Ol.
+        * intros j t0 u H0 Hu. unfold q_set_thread in Hu. unfold stored_by. simpl. rewrite stored_by_app. simpl.
+          destruct (Nat.eq_dec i j) as [->|Hne].
+          -- rewrite (nth_error_upd_same _ _ _ _ Hnth) in Hu. inversion Hu; subst u. rewrite Nat.eqb_refl. simpl.
+             rewrite <- (Op j t0 _ H0 Hnth). simpl. rewrite <- app_assoc. reflexivity.
+          -- rewrite nth_error_upd_other in Hu by exact Hne.
+             rewrite (proj2 (Nat.eqb_neq i j) Hne). rewrite app_nil_r. apply (Op j t0 u H0 Hu).
+      + inversion H; subst s'. apply (Hkeep (QProd QPPost (v :: rest))); reflexivity.
+      + inversion H; subst s'. apply (Hkeep (QProd QPWait rest)); reflexivity.
+    - destruct pc.
+      + destruct (q_used s); [discriminate|]. inversion H; subst s'. apply (Hkeep (QCons QCLock (S w) got)); reflexivity.
+      + destruct (q_cmx s); [discriminate|]. inversion H; subst s'. apply (Hkeep (QCons QCRead (S w) got)); reflexivity.
+      + inversion H; subst s'. apply (Hkeep (QCons QCUnlock (S w) (q_slots s (q_cat s) :: got))); reflexivity.
+      + inversion H; subst s'. apply (Hkeep (QCons QCPost (S w) got)); reflexivity.
+      + inversion H; subst s'. apply (Hkeep (QCons QCWait w got)); reflexivity.
+  Qed.
+
+  (* per producer: what a thread has stored so far, in store order, followed by what it still has to
+     store, is exactly its program; and the tagged log is the store log *)
+  Lemma pcq_per_producer_order_proof s : reachable (pcq_step n) (pcq_init n 0 threads0) s ->
+    map snd (q_wtlog s) = q_wlog s /\
+    forall i t0 t, nth_error threads0 i = Some t0 -> nth_error (q_threads s) i = Some t ->
+                   stored_by i s ++ to_store t = to_store t0.
+  Proof.
+    intros Hr.
+    assert (G : OInv s).
+    { revert s Hr. apply invariant_reachable; [exact oinv_init|]. intros s0 l s1. apply oinv_step. }
+    destruct G as [Ot _ Op]. split; [exact Ot|exact Op].
+  Qed.
+End PcqOrder.
